@@ -14,6 +14,7 @@ RULE = ("cases = (items, size, hop, pad value, entry point) drawn by Hypothesis 
 ASSUMPTIONS = [
   "block contents are observed through list(block) at yield time (the deque is reused by design)",
   "size >= 1 and hop >= 1 (the property's domain)",
+  "Stream.blocks describes the stream's items as of the call: in-place changes to the Stream object made after the call and before the first block is read do not show in the blocks",
 ]
 
 _items = st.one_of(
@@ -50,7 +51,8 @@ def strat_blocks(tier):
                  st.integers(0, maxlen).map(lambda n: list(range(n)))),
     sh=st.sampled_from(["lt", "lt", "gt", "gt", "eq", "none"]).flatmap(sizehop),
     pad=_pad,
-    route=st.sampled_from(["iter", "list", "stream", "stream_method", "gen", "kw_default_pad"]),
+    route=st.sampled_from(["iter", "list", "stream", "stream_method", "gen", "kw_default_pad",
+                           "stream_method_then_changed", "tuple", "deque"]),
   ))
 
 
@@ -67,6 +69,19 @@ def _call(case):
     return blocks(Stream(xs), size=size, padval=pad, **kw), pad
   if route == "stream_method":
     return Stream(xs).blocks(size=size, padval=pad, **kw), pad
+  if route == "tuple":
+    return blocks(tuple(xs), size=size, padval=pad, **kw), pad
+  if route == "deque":
+    from collections import deque
+    return blocks(deque(xs), size=size, padval=pad, **kw), pad
+  if route == "stream_method_then_changed":
+    # the blocks are those of the stream as it was when blocks() was called: changing the
+    # Stream object in place afterwards (before any block is read) must not leak into them
+    src = Stream(xs)
+    out = src.blocks(size=size, padval=pad, **kw)
+    src.map(lambda v: ("changed", v))
+    src.append(["appended"])
+    return out, pad
   if route == "kw_default_pad":
     return blocks(iter(xs), size=size, **kw), 0.
   raise AssertionError(route)
